@@ -270,6 +270,20 @@ pub fn gen_threads() -> Generated {
             emit(&mut src, &mut probes, &format!("{}::(by value)", ty), "send-cache-of-non-send-values", control, if control { vec![] } else { vec!["E0277"] }, &body);
         }
     }
+    // the index key type `KeyRef<K>` is public (doc-hidden) and dereferences a raw pointer in its
+    // Hash / PartialEq: safe code must have no way to make one
+    for (i, body) in [
+        "    let k = 1u64;\n    let r: KeyRef<u64> = KeyRef::from(&k);\n    sink(r);",
+        "    let k = 1u64;\n    let r: KeyRef<u64> = (&k).into();\n    sink(r);",
+        "    let r: KeyRef<u64> = Default::default();\n    sink(r);",
+        "    let k = 1u64;\n    let r: KeyRef<u64> = KeyRef::new(&k);\n    sink(r);",
+        "    let k = 1u64;\n    let r: KeyRef<u64> = KeyRef::from(&k as *const u64);\n    sink(r);",
+    ]
+    .iter()
+    .enumerate()
+    {
+        emit(&mut src, &mut probes, &format!("KeyRef::safe-constructor-{i}"), "keyref-constructible", false, vec!["E0308", "E0277", "E0599", "E0451", "E0423", "E0560", "E0616", "E0639"], body);
+    }
     Generated { source: src, probes }
 }
 
@@ -340,6 +354,9 @@ macro_rules! rows_param { ($p:ident) => {
     row!("WTinyLFUCache/S", $p, SS, WTinyLFUCache<SS, SS, caches::lfu::DefaultKeyHasher<SS>, $p, D, D>);
     row!("WTinyLFUCache/S", $p, SS, WTinyLFUCache<SS, SS, caches::lfu::DefaultKeyHasher<SS>, D, $p, D>);
     row!("WTinyLFUCache/S", $p, SS, WTinyLFUCache<SS, SS, caches::lfu::DefaultKeyHasher<SS>, D, D, $p>);
+    row!("TinyLFU/H", $p, SS, caches::lfu::TinyLFU<SS, $p>);
+    row!("SampledLFU/H", $p, SS, caches::lfu::SampledLFU<SS, $p, D>);
+    row!("SampledLFU/H", $p, SS, caches::lfu::SampledLFU<SS, caches::lfu::DefaultKeyHasher<SS>, $p>);
 } }
 
 fn main() {
@@ -396,6 +413,20 @@ pub fn judge_marker(ty: &str, k: &str, v: &str, send: bool, sync: bool) -> Optio
             }
             if sync {
                 if let Some(w) = need(is_sync(k), "a cache is Sync although one of its hashers (used through &self by every lookup) is not Sync") {
+                    return Some(w);
+                }
+            }
+        }
+        // the estimator and the cost tracker hash keys through `&self` with their key hasher /
+        // hasher (the key type itself is only a marker there)
+        "TinyLFU/H" | "SampledLFU/H" => {
+            if send {
+                if let Some(w) = need(is_send(k), "an estimator / cost tracker is Send although its key hasher or hasher is not Send") {
+                    return Some(w);
+                }
+            }
+            if sync {
+                if let Some(w) = need(is_sync(k), "an estimator / cost tracker is Sync although its key hasher or hasher (used through &self) is not Sync") {
                     return Some(w);
                 }
             }
@@ -622,8 +653,8 @@ pub fn run_e5(verif_dir: &str) -> E5Result {
                     }
                 }
             }
-            if res.marker_rows != 16 * 15 + 4 * 15 {
-                res.inconclusive = Some(format!("marker table has {} rows, expected {}", res.marker_rows, 16 * 15 + 4 * 15));
+            if res.marker_rows != 16 * 15 + 4 * 18 {
+                res.inconclusive = Some(format!("marker table has {} rows, expected {}", res.marker_rows, 16 * 15 + 4 * 18));
             }
         }
     }
